@@ -37,6 +37,8 @@ pub struct Report {
     pub notes: Vec<String>,
     pub skipped: u64,
     pub counters: std::collections::BTreeMap<String, u64>,
+    /// property-specific payload copied into the result file
+    pub extra: std::collections::BTreeMap<String, Value>,
 }
 
 pub const MAX_VIOLATIONS: usize = 12;
@@ -105,6 +107,7 @@ impl Report {
             "notes": self.notes,
             "counters": self.counters,
             "wall_s": wall,
+            "extra": self.extra,
         })
     }
 }
